@@ -476,3 +476,11 @@ Qed.
 Example ex_deliveries : drain false [(1, ReadyOk); (2, ReadyFails); (3, ReadyOk); (4, ReadyFails); (5, ReadyOk)]
                         = [Ran 1; Refused 2; Ran 3; Refused 4; Ran 5].
 Proof. reflexivity. Qed.
+
+(* ---- whatever the logging options and whether or not the target declares a RemoteInterface, failing an active request
+   fires its Deferred exactly once and raises nothing *)
+Theorem fail_fires_once logging known r : p_active r = true ->
+  fail_request logging known r = FailDone {| p_active := false; p_fired := S (p_fired r) |}.
+Proof.
+  intros A. unfold fail_request, log_name_has_fallback. rewrite A. rewrite andb_false_r. reflexivity.
+Qed.
